@@ -1,5 +1,13 @@
 """C07 - UDP (BEP 15/41) request parsing."""
 PROP = {
+    # through the real socket: concurrent clients, datagrams of up to 2048 bytes (what serve() reads), every response and the
+    # state they leave judged against the model (the stress rounds of C04, run here for the wire -> parser path)
+    "parts": [{"name": "sock", "driver_prop": "STRESS", "glue": "GE", "chk": "chkE04", "explain": "explainE", "prelude": "From Chihaya Require Import Glue.G06 Glue.G10.",
+               "n": {"quick": 50, "thorough": 600},
+               "reasons": {"1": "panic", "2": "number of responses differs from what the request calls for", "4": "error/connect response bytes differ from what THIS request calls for",
+                           "5": "response bytes differ from the BEP 15 encoding of the answer to THIS request", "12": "scrape counts differ",
+                           "13": "the membership left by announces sent through the socket is not the one the datagrams imply (a datagram was not handed to the parser as it was sent)"},
+               "gotags": ["verif_sock", "verif_e2e", "shim_udp", "shim_http", "shim_memory", "shim_timecache"]}],
     "glue": "G07", "chk": "chk07", "explain": "explain07",
     "gotags": ["shim_udp", "shim_timecache"],
     "n": {"quick": 1500, "thorough": 12000},
